@@ -28,6 +28,7 @@ type PropConfig struct {
 type Expected struct {
 	Property    string            `json:"property"`
 	Obligations map[string]string `json:"obligations"` // name -> "proved"
+	Others      []string          `json:"not_claimed"`  // every other obligation generated on the unchanged tree (unproved, slow, known findings)
 	Commit      string            `json:"repo_commit,omitempty"`
 }
 
@@ -179,19 +180,23 @@ func checkCmd(argv []string) int {
 			}
 		}
 	}
-	timeout := 30
+	timeout := 60
 	if *tier == "thorough" {
-		timeout = 120
+		timeout = 180
 	}
 	// obligations that are not claimed (not in the expected set) cannot change the verdict: in the quick tier they
 	// get a short timeout so that known-unproved clauses do not slow every run down
 	exp0 := &Expected{Obligations: map[string]string{}}
 	readJSON(filepath.Join(*verif, "expected", *prop+".json"), exp0)
+	others0 := map[string]bool{}
+	for _, n := range exp0.Others {
+		others0[n] = true
+	}
 	if *tier == "quick" && !*update {
 		for _, fr := range frs {
 			for _, o := range fr.Obls {
-				if _, claimed := exp0.Obligations[o.Name]; !claimed {
-					o.ShortTimeout = 4
+				if _, claimed := exp0.Obligations[o.Name]; !claimed && (exp0.Others == nil || others0[o.Name]) {
+					o.ShortTimeout = 4 // a NEW obligation (not generated on the unchanged tree) gets the full timeout
 				}
 			}
 		}
@@ -265,9 +270,15 @@ func checkCmd(argv []string) int {
 	if *update {
 		ne := &Expected{Property: *prop, Obligations: map[string]string{}}
 		for _, r := range rows {
-			if r.Status == "unsat" && r.Ms <= 6000 { // claim only what discharges well under the quick timeout
+			if r.Status == "unsat" && r.Ms <= 5000 { // claim only what discharges well under the quick timeout
 				ne.Obligations[r.Name] = "proved"
+			} else {
+				ne.Others = append(ne.Others, r.Name)
 			}
+		}
+		sort.Strings(ne.Others)
+		if ne.Others == nil {
+			ne.Others = []string{}
 		}
 		os.MkdirAll(filepath.Dir(expPath), 0o755)
 		writeJSON(expPath, ne)
@@ -316,6 +327,10 @@ func checkCmd(argv []string) int {
 		fmt.Printf("  failed obligation: %s\n  %s\n  solver: %s (%s)\n", o.Name, o.Desc, o.Result.Status, o.Result.Backend)
 	}
 	// obligations not claimed: known findings and unproved-unclaimed
+	othersNow := map[string]bool{}
+	for _, n := range exp.Others {
+		othersNow[n] = true
+	}
 	for _, r := range rows {
 		if _, ok := exp.Obligations[r.Name]; ok {
 			continue
@@ -325,6 +340,21 @@ func checkCmd(argv []string) int {
 		}
 		if kf := knownFor(r.Name); kf != nil {
 			knownLines = append(knownLines, fmt.Sprintf("KNOWN-FINDING: property=%s %s [%s]", *prop, kf.WhatFails, r.Name))
+			continue
+		}
+		if exp.Others != nil && !othersNow[r.Name] {
+			// an obligation that did not exist on the unchanged tree (new call site, new dereference, renumbered
+			// clause) in a function that is under contract, and it does not discharge: the change broke the proof
+			o := byName[r.Name]
+			violations++
+			exit = 1
+			rp := writeReplay(*repo, *verif, replayDir, *prop, o, frOf[r.Name], prelude, replays)
+			suffix := ""
+			if !rp.Reproduced {
+				suffix = " no-failing-input-found"
+			}
+			fmt.Printf("VIOLATION property=%s replay=%s%s\n", *prop, rp.Path, suffix)
+			fmt.Printf("  failed obligation (new: not generated on the unchanged tree): %s\n  %s\n  solver: %s (%s)\n", o.Name, o.Desc, o.Result.Status, o.Result.Backend)
 			continue
 		}
 		unclaimed = append(unclaimed, fmt.Sprintf("%s (%s)", r.Name, r.Status))
